@@ -8,7 +8,7 @@ open Gonnx
 def attrInt (attrs : Json) (name : String) (d : Int) : Int :=
   match attrs with
   | .arr a => match a.toList.find? (fun x => getStr x "name" == name) with
-    | some x => getInt x "i" d
+    | some x => getInt x "i" 0
     | none => d
   | _ => d
 
@@ -47,9 +47,9 @@ def runShapeOp (op : String) (attrs : Json) (ins : List (Option DT)) : Answer :=
   | "Reshape", [some X, some S] =>
     let tags := [s!"rank{X.t.rank}", if S.t.data.contains (-1) then "minus1" else "no-minus1",
       if S.t.data.contains 0 then "zero" else "no-zero"]
-    if S.t.rank != 1 then
-      { model := okT X.dt (reshapeOp X.t S.t), spec := { domain := "mayRefuse" }, tags := tags ++ ["shape-not-1d"],
-        guard := ["reshape.shape_tensor_not_1d"] }
+    if S.t.rank != 1 || S.t.data.isEmpty then
+      { model := okT X.dt (reshapeOp X.t S.t), spec := { domain := "mayRefuse" }, tags := tags ++ ["shape-not-1d-or-empty"],
+        guard := [if S.t.data.isEmpty then "reshape.empty_shape_tensor" else "reshape.shape_tensor_not_1d"] }
     else
       let sp := Spec.reshapeShape X.t.shape S.t.data
       { model := okT X.dt (reshapeOp X.t S.t), spec := reshapeSpec X sp, tags,
@@ -65,8 +65,9 @@ def runShapeOp (op : String) (attrs : Json) (ins : List (Option DT)) : Answer :=
     let tags := [s!"rank{X.t.rank}", if axes.isSome then "axes" else "no-axes"]
     match axes with
     | some A =>
-      if A.t.rank != 1 then
-        { model := okT X.dt (squeezeOp X.t (some A.t)), spec := { domain := "mayRefuse" }, tags := tags ++ ["axes-not-1d"] }
+      if A.t.rank != 1 || A.t.data.isEmpty then
+        { model := okT X.dt (squeezeOp X.t (some A.t)), spec := { domain := "mayRefuse" }, tags := tags ++ ["axes-not-1d-or-empty"],
+          guard := [if A.t.data.isEmpty then "squeeze.empty_axes_tensor" else "squeeze.axes_not_1d"] }
       else
         let sp := Spec.squeezeShape X.t.shape (some A.t.data)
         let r : Int := X.t.rank
@@ -77,14 +78,15 @@ def runShapeOp (op : String) (attrs : Json) (ins : List (Option DT)) : Answer :=
       { model := okT X.dt (squeezeOp X.t none), spec := reshapeSpec X (Spec.squeezeShape X.t.shape none), tags }
   | "Unsqueeze", [some X, some A] =>
     let tags := [s!"rank{X.t.rank}", s!"naxes{A.t.data.length}"]
-    if A.t.rank != 1 then
-      { model := okT X.dt (unsqueezeOp X.t A.t), spec := { domain := "mayRefuse" }, tags := tags ++ ["axes-not-1d"] }
+    if A.t.rank != 1 || A.t.data.isEmpty then
+      { model := okT X.dt (unsqueezeOp X.t A.t), spec := { domain := "mayRefuse" }, tags := tags ++ ["axes-not-1d-or-empty"],
+        guard := [if A.t.data.isEmpty then "unsqueeze.empty_axes_tensor" else "unsqueeze.axes_not_1d"] }
     else
       { model := okT X.dt (unsqueezeOp X.t A.t), spec := reshapeSpec X (Spec.unsqueezeShape X.t.shape A.t.data), tags }
   | "Shape", [some X] =>
     { model := okT .i64 (shapeOp X.t), tags := [s!"rank{X.t.rank}"],
       spec := { domain := "must", outs := some [some ⟨.i64, ⟨[X.t.rank], X.t.shape.map (fun (d : Nat) => (d : Int))⟩⟩] },
-      guard := if X.t.rank == 0 then ["shape.scalar"] else [] }
+      guard := [] }
   | _, _ => { model := { status := "unmodelled" } }
 
 def isShapeOp (op : String) : Bool :=
